@@ -94,6 +94,7 @@ Definition vpow (b e : val) : val :=
       if qzero y then VQ 1 else
       match b with
       | VQ x =>
+          if Qeq_bool x 1 then VQ 1 else
           if is_int y then
             if qzero x && (Qnum y <? 0)%Z then VZoo else VQ (Qred (Qpower x (Qfloor y)))
           else if Qeq_bool (y * 2) (inject_Z (Qfloor (y * 2))) then
@@ -104,6 +105,8 @@ Definition vpow (b e : val) : val :=
           else if qzero x then (if (Qnum y <? 0)%Z then VZoo else VQ 0) else VOther
       | VFloat0 => if (Qnum y <? 0)%Z then VZoo else VQ 0
       | VPInf => if (Qnum y <? 0)%Z then VQ 0 else VPInf
+      | VNInf => if (Qnum y <? 0)%Z then VQ 0
+                 else if is_int y then (if Z.even (Qfloor y) then VPInf else VNInf) else VOther
       | VNaN => VNaN
       | _ => VOther
       end
@@ -111,6 +114,9 @@ Definition vpow (b e : val) : val :=
   | VNaN, _ | _, VNaN => VNaN
   | _, _ => VOther
   end.
+
+(* sympy Min/Max refuse NaN and zoo arguments ("not comparable") *)
+Definition comparable (v : val) : bool := match v with VNaN | VZoo | VSym => false | _ => true end.
 
 Definition vmin (a b : val) : val :=
   match a, b with
